@@ -173,4 +173,21 @@ CHECKS = {
         assumptions=COMMON_ASSUME + ["windowed limit readiness = closing sample's in-flight > windowSize (the rule the existing suite pins); a drop-only window's period may be anything in [minWindow,maxWindow]",
                                      "durations >= 1ns (DESIGN 8)"],
     ),
+    "C10": dict(
+        pkg="c10", race=False, shards=(8, 16), timeout_s=(600, 3600),
+        technique="quiescence-invariant monitor in a synctest bubble under forced schedules (releases injected at schedule points via instrumented delegate, verif hooks and an actor goroutine)",
+        level_text="Liveness restated as safety at quiescence: after every release, when all goroutines of the bubble are durably blocked and virtual time "
+                   "has not moved, 'capacity free and a caller still blocked' is a violation. The release is injected at: before arrival, after the "
+                   "caller's 1st/2nd failed delegate attempt, between backlog push and select (verif hooks), when asleep, at the failed retry of a woken "
+                   "loser, while unblock hands to a waiter that is being cancelled / timing out at the same instant, and with the broadcast delayed after "
+                   "the inner release - for blocking (timeout 0 / T), deadline and queue FIFO/LIFO x eviction on/off, capacity 1-2, 1-3 waiters, all "
+                   "outcomes. Exploration of forced interleavings, not all schedules.",
+        require=["scenarios", "quiescent_snapshots", "scenarios_reaching_their_schedule_point", "snapshots_with_blocked_callers",
+                 "reached/after-failed-attempt-1", "reached/queue.after_push", "reached/queue.before_push", "reached/loser-retry",
+                 "reached/handoff-vs-cancel", "reached/handoff-vs-timeout", "reached/asleep"],
+        rule="scenario grid = limiter kind (7) x release point (6-9) x capacity {1,2} x waiters {1,2,3} x outcome (3); quick runs the grid once, thorough 200 "
+             "times with PRNG pause budgets / strategy kind / targeted waiter; non-trivial = schedule point reached and some waiter granted; distinct = distinct scenario tuples.",
+        assumptions=COMMON_ASSUME + ["sync.Cond.Wait, channel ops and select are durably blocking in a bubble, sync.Mutex is not (a caller waiting for a mutex counts as running)",
+                                     "pauses at schedule points are bounded yields, never waits: they cannot deadlock an implementation that holds a lock across the window"],
+    ),
 }
